@@ -144,6 +144,7 @@ type ReplayFile struct {
 	Events    []string   `json:"events,omitempty"`
 	Seed      uint64     `json:"seed"`
 	OrigLen   int        `json:"orig_tape_len"`
+	FromSeed  bool       `json:"from_seed,omitempty"` // replay by re-drawing from the seed (crash triage), tape ignored
 }
 
 var outMu sync.Mutex
@@ -317,7 +318,7 @@ func Main(t *testing.T, property string, scs []Scenario) {
 		}
 		setDeadline(runTimeout, fmt.Sprintf("replay %s", path))
 		var tp *Tape
-		if rf.Tape == nil {
+		if rf.FromSeed {
 			tp = NewTape(rf.Seed)
 		} else {
 			tp = ReplayTape(rf.Tape)
@@ -394,6 +395,9 @@ func Main(t *testing.T, property string, scs []Scenario) {
 				if v == nil {
 					v = e.viol
 					tape = tp.Recorded()
+				}
+				if tape == nil {
+					tape = []uint64{}
 				}
 				rf := &ReplayFile{
 					Property: property, Scenario: sc.Name, Seed: seed, Tape: tape, OrigLen: tp.Pos(),
